@@ -8,6 +8,7 @@ Exit 2: internal error / timeout of the machinery itself (never reported as a vi
 """
 from __future__ import annotations
 
+import contextlib
 import hashlib
 import importlib
 import json
@@ -205,9 +206,21 @@ def run_one(mod: Any, drv: Any, case: Dict[str, Any]) -> Dict[str, Any]:
     return res
 
 
+class CaseTimeout(BaseException):
+    """Raised by the per-case alarm; a BaseException so that `except Exception` blocks of the code under test and of
+    the adapters do not swallow it."""
+
+
+def _alarm(signum, frame):
+    raise CaseTimeout()
+
+
 def worker(prop: str, tier: str, idx: int, nworkers: int, seed: int, ncases: int, outpath: str,
            wide: bool = False) -> None:
     from harness import leandrv
+    import signal
+    signal.signal(signal.SIGALRM, _alarm)
+    case_limit = int(os.environ.get("VERIF_CASE_TIMEOUT_S", "120"))
     mod = importlib.import_module(f"harness.props.{prop.lower()}")
     drv = leandrv.Driver()
     results = []
@@ -234,11 +247,23 @@ def worker(prop: str, tier: str, idx: int, nworkers: int, seed: int, ncases: int
                 if isinstance(case, dict) and "pre" not in case and rng2.random() < 0.3:
                     from harness.props import common as _C
                     case["pre"] = rng2.sample(_C.PRE_CALLS, rng2.randint(1, 4))
-            r = run_one(mod, drv, case)
+            signal.alarm(case_limit)
+            try:
+                r = run_one(mod, drv, case)
+            finally:
+                signal.alarm(0)
             r["no"] = no
             if r["status"] != "ok":
                 r["case"] = case
             results.append(r)
+        except CaseTimeout:
+            # the implementation (or, far less likely, the model) did not come back: the correspondence is broken on
+            # this input; the failing-input search decides what to report
+            with contextlib.suppress(Exception):
+                drv.close()
+            drv = leandrv.Driver()
+            results.append({"no": no, "status": "disagree", "case": case, "features": {}, "nontrivial": False,
+                            "diffs": [f"no answer within {case_limit} s on this input (implementation does not terminate, or is far slower than on every other input)"]})
         except Exception as e:  # harness error: reported, never a violation
             results.append({"no": item if kind == "gen" else "corpus", "status": "error",
                             "error": f"{type(e).__name__}: {e}", "tb": traceback.format_exc()[-3000:]})
@@ -410,13 +435,19 @@ def main_check(prop: str, tier: str) -> int:
             def still(c: Dict[str, Any]) -> bool:
                 # the minimised input must fail in the same way (same leading message up to numbers): a shrink step
                 # must not slide into a different, possibly out-of-domain, failure
+                import signal
                 try:
                     if hasattr(mod, "wf") and not mod.wf(c):
                         return False
-                    rr = run_one(mod, drv, c)
+                    signal.signal(signal.SIGALRM, _alarm)
+                    signal.alarm(int(os.environ.get("VERIF_CASE_TIMEOUT_S", "120")))
+                    try:
+                        rr = run_one(mod, drv, c)
+                    finally:
+                        signal.alarm(0)
                     return (rr["status"] == "violation" and msg_class(rr["violations"]) == want_class
                             and fmod.classify(prop, c, rr["violations"], findings) is None)
-                except Exception:
+                except (Exception, CaseTimeout):
                     return False
             small = shrink(mod, drv, case, still) if getattr(mod, "SHRINK", False) else case
             rr = run_one(mod, drv, small)
